@@ -136,6 +136,41 @@ def generate(rng, tier):
         full = s.add("trace U C 0x11050 %s S %d" % (regs, depth + 6), tag="%s:nullra-generic:full:%d" % (arch, depth))
         s.meta[full] = {"role": "full", "marker": "null return address on the generic path", "arch": arch}
         out.append(("genericnull-%s-%d" % (arch, w), s))
+    # "return address undefined" ends the stack whatever the row says about the CFA and the frame pointer
+    for w in range(2 if tier == "quick" else 12):
+        arch = "x86" if w % 2 == 0 else "a64"
+        R = ARCH_REGS[arch]
+        s = Script(arch, "may" if w % 4 < 2 else "must")
+        gran = 8 if arch == "x86" else 16
+        fprules = [("u",), ("s",), ("o", -16), ("o", -24), ("vo", -16), ("reg", 3), ("reg", R["sp"]),
+                   ("e", [("breg", R["sp"], 8)]), ("ve", [("breg", R["fp"], 16)])]
+        cfas = [("r", R["sp"], 2 * gran), ("r", R["fp"], 16), ("r", R["fp"], 32), ("r", R["sp"], 4),
+                ("e", [("breg", R["sp"], 16)])]
+        roots = [(c, f) for c in cfas for f in fprules]
+        fdes = [dict(start=0x1000, len=0x100, rows=[(0, suites.std_row(arch, "frameless", 2))])]
+        for i, (c, f) in enumerate(roots):
+            fdes.append(dict(start=0x2000 + 0x10 * i, len=0x10, rows=[(0, dict(cfa=c, fp=f, ra=("u",)))]))
+        s.module_dwarf("M", 0x10000, 0x20000, 0x10000, 0, ["hdr", "eh", "debug"][w % 3], fdes, rng, shuffle=True)
+        base = 0x7000
+        s.mem("S", [(base + 8 * i, 0x11800 + i) for i in range(64)])
+        s.add("new U"); s.add("add U M")
+        for i, (c, f) in enumerate(roots):
+            ra = 0x12000 + 0x10 * i + 5
+            # (a) stopped in the root function itself, (b) in a frameless callee that returns into it
+            s.mem("S%d" % i, [(base + 8 * j, ra if j == (1 if arch == "x86" else 3) else 0x11800 + j) for j in range(64)])
+            for first in (True, False):
+                s.add("newcache C")
+                if first:
+                    regs = s.regs_x86(ra, base + 64, base + 128) if arch == "x86" else s.regs_a64(M64, 0x11060, base + 64, base + 128)
+                    pc = ra
+                else:
+                    regs = s.regs_x86(0x11050, base, base + 128) if arch == "x86" else s.regs_a64(M64, ra, base, base + 128)
+                    pc = 0x11050
+                ln = s.add("trace U C %s %s S%d 6" % (hx(pc), regs, i),
+                           tag="%s:rootrow:%s:%s:%s" % (arch, c[0] + str(c[1])[:2], f[0], "first" if first else "caller"))
+                s.meta[ln] = {"role": "full", "marker": "return address undefined (CFA %s, fp rule %s)" % (c, f), "arch": arch,
+                              "rootrow": [list(c[:1]) + ([c[1], c[2]] if c[0] == "r" else []), f[0], first]}
+        out.append(("rootrows-%s-%d" % (arch, w), s))
     return out
 
 def items_of(line):
@@ -169,6 +204,20 @@ def judge(script, impl):
         if not (t[0] == "err" and t[1] == "CouldNotReadStack" and int(t[2], 16) >= cut):
             bad.append((ln, "truncated walk (cut %#x) must end with Err naming an unreadable address >= cut, got '%s' (full walk: %s)" % (cut, last, " | ".join(ref))))
     return bad
+
+def k_s14(script, ln, line, desc):
+    """aarch64/dwarf.rs: 'lr undefined' ends the stack only for caller frames whose row compresses into
+    OffsetSpIfFirstFrameOtherwiseStackEndsHere (CFA = sp + 16k, fp same/undefined); first frames read it as
+    same-value (deliberate) and every other row fails on the generic path (frame-pointer fallback)."""
+    m = script.meta.get(ln, {})
+    rr = m.get("rootrow")
+    if not rr or m.get("arch") != "a64":
+        return False
+    c, f, first = rr
+    compresses = c[0] == "r" and c[1] == 31 and c[2] % 16 == 0 and f in ("u", "s")
+    return first or not compresses
+
+KNOWN = {"S14_a64_undefined_rules": k_s14}
 
 def project(script, ln, line):
     return vlib.norm(line, keep_alloc=False)
